@@ -8,6 +8,7 @@ import (
 	"regexp"
 	"sort"
 	"strings"
+	"time"
 
 	"github.com/nspcc-dev/neo-go/pkg/config"
 	"github.com/nspcc-dev/neo-go/pkg/core/block"
@@ -229,11 +230,29 @@ func newRunner(c *confT, st *statsT) (*runner, *viol) {
 	return r, r.open()
 }
 
+// close stops the node. After a recovered panic a lock of the subject may
+// still be held, so Close runs aside with a liveness guard (a node that cannot
+// be closed is leaked and counted).
 func (r *runner) close() {
-	if r.n != nil && !r.poisoned {
-		r.n.Close()
-	}
+	n := r.n
 	r.n = nil
+	if n == nil {
+		return
+	}
+	if !r.poisoned {
+		n.Close()
+		return
+	}
+	done := make(chan struct{})
+	go func() {
+		defer func() { _ = recover(); close(done) }()
+		n.Close()
+	}()
+	select {
+	case <-done:
+	case <-time.After(5 * time.Second):
+		r.stats.leaked.Inc()
+	}
 }
 
 func (r *runner) logLen() int { return len(r.rs.Batches()) }
